@@ -539,6 +539,9 @@ func (fr *frame) execBlock(b *ssa.BasicBlock) {
 	e := fr.e
 	for _, in := range b.Instrs {
 		e.steps++
+		if e.steps > 3000000 {
+			panic(unsupported("symbolic execution exceeded 3,000,000 SSA steps (loop bounds too large for this tree)"))
+		}
 		if p := in.Pos(); p.IsValid() {
 			fr.curPos = p
 		}
